@@ -196,5 +196,5 @@ func matrixHarness(lo, hi int) {
 	vrt.Reach("end")
 }
 
-// C04Matrix: all 43 destination types.
-func C04Matrix() { matrixHarness(0, 43) }
+// C04Matrix: all 45 destination types.
+func C04Matrix() { matrixHarness(0, 45) }
